@@ -320,6 +320,9 @@ func burnERC20Tokens(ctx *action.Context, tracker *trackerlib.Tracker, oltTx Rep
 	if err != nil {
 		return gov.ErrGetEthOptions
 	}
+	if ethTx.To() == nil {
+		return errors.New("eth txn has no recipient")
+	}
 	token, err := ethereum.GetToken(ethOpt.TokenList, *ethTx.To())
 	if err != nil {
 		return err
@@ -346,6 +349,9 @@ func mintERC20tokens(ctx *action.Context, tracker *trackerlib.Tracker, oltTx Rep
 	ethOpt, err := ctx.GovernanceStore.GetETHChainDriverOption()
 	if err != nil {
 		return gov.ErrGetEthOptions
+	}
+	if ethTx.To() == nil {
+		return errors.New("eth txn has no recipient")
 	}
 	token, err := ethereum.GetToken(ethOpt.TokenList, *ethTx.To())
 	if err != nil {
